@@ -142,6 +142,7 @@ def rule_eval(ctx, rep):
     for r, (px, py), inner in itertools.product((0, 1, 2), [(0, 1), (1, 1), (1, 0)], (True, False)):
         # ---- eval_tokens
         x, y = mk_token(model, base, 'x', px, inner), mk_token(model, base, 'y', py, True)
+        x.attrs['children'] = [mk_token(model, base, 'y', 1, True)]      # x already holds a nested candidate: it goes where x goes
         buf = []
         it = Interp(model)
         it.reset_run(Oracle())
